@@ -115,3 +115,101 @@ int ok_check_live(bn_t m, bn_t t, const uint8_t *h1, const uint8_t *h2) {
 	}
 	return result;
 }
+
+/* ------------------------------------------------------------------ OUT-CLEAN / DEC-RANGE / ENC-RANGE */
+int ok_clean__cp_sr_dec(uint8_t *out, size_t *out_len, const uint8_t *in, size_t in_len, const bn_t n) {
+	bn_t m;
+	int result = RLC_OK;
+	bn_null(m);
+	RLC_TRY {
+		bn_new(m);
+		bn_read_bin(m, in, in_len);
+		if (bn_cmp(m, n) != RLC_LT) {
+			RLC_THROW(ERR_NO_VALID);
+		}
+		bn_mxp_dig(m, m, 3, n);
+		if (bn_is_even(m)) {
+			result = RLC_ERR;
+		}
+		if (result == RLC_OK && bn_size_bin(m) <= *out_len) {
+			*out_len = bn_size_bin(m);
+			bn_write_bin(out, *out_len, m);
+		} else {
+			result = RLC_ERR;
+		}
+	} RLC_CATCH_ANY {
+		result = RLC_ERR;
+	} RLC_FINALLY {
+		bn_free(m);
+	}
+	return result;
+}
+
+/* the failed check sets the status but the plaintext is written all the same */
+int bad_out_clean__written__cp_sr_dec(uint8_t *out, size_t *out_len, const uint8_t *in, size_t in_len, const bn_t n) {
+	bn_t m;
+	int result = RLC_OK;
+	bn_null(m);
+	RLC_TRY {
+		bn_new(m);
+		bn_read_bin(m, in, in_len);
+		if (bn_cmp(m, n) != RLC_LT) {
+			RLC_THROW(ERR_NO_VALID);
+		}
+		bn_mxp_dig(m, m, 3, n);
+		if (bn_is_even(m)) {
+			result = RLC_ERR;
+		}
+		if (bn_size_bin(m) <= *out_len) {
+			*out_len = bn_size_bin(m);
+			bn_write_bin(out, *out_len, m);
+		} else {
+			result = RLC_ERR;
+		}
+	} RLC_CATCH_ANY {
+		result = RLC_ERR;
+	} RLC_FINALLY {
+		bn_free(m);
+	}
+	return result;
+}
+
+/* c + n decrypts like c */
+int bad_dec_range__unchecked__cp_sr_dec(uint8_t *out, size_t *out_len, const uint8_t *in, size_t in_len, const bn_t n) {
+	bn_t m;
+	int result = RLC_OK;
+	bn_null(m);
+	RLC_TRY {
+		bn_new(m);
+		bn_read_bin(m, in, in_len);
+		bn_mxp_dig(m, m, 3, n);
+		if (bn_size_bin(m) <= *out_len) {
+			*out_len = bn_size_bin(m);
+			bn_write_bin(out, *out_len, m);
+		} else {
+			result = RLC_ERR;
+		}
+	} RLC_CATCH_ANY {
+		result = RLC_ERR;
+	} RLC_FINALLY {
+		bn_free(m);
+	}
+	return result;
+}
+
+int ok_range__cp_phpe_enc(bn_t c, const bn_t m, const bn_t pub) {
+	if (pub == NULL || bn_sign(m) == RLC_NEG || bn_cmp(m, pub) != RLC_LT) {
+		return RLC_ERR;
+	}
+	bn_mxp(c, m, pub, pub);
+	return RLC_OK;
+}
+
+/* bit lengths only: n + 5 is admitted */
+int bad_enc_range__bits__cp_phpe_enc(bn_t c, const bn_t m, const bn_t pub) {
+	if (pub == NULL || bn_bits(m) > bn_bits(pub)) {
+		return RLC_ERR;
+	}
+	bn_mxp(c, m, pub, pub);
+	return RLC_OK;
+}
